@@ -37,7 +37,9 @@ def obligations(tier):
     o = own_obligations(tier)
     import importlib
     C11 = importlib.import_module("props.C11")
-    o += [x for x in C11.own_obligations(tier) if x.name == "directed_thread_yield_to"]   # error path of ABT_thread_yield_to must undo its num_blocked pre-increment
+    o += [x for x in C11.own_obligations(tier) if x.name == "directed_thread_yield_to"]
+    C01 = importlib.import_module("props.C01")
+    o += [x for x in C01.own_obligations(tier) if x.name == "main_sched_func"]   # error path of ABT_thread_yield_to must undo its num_blocked pre-increment
     o += deepen([x for x in o if x.hooks], tier)
     return o
 
